@@ -1234,7 +1234,12 @@ impl GRLParser {
     fn parse_single_condition(&self, clause: &str) -> Result<ConditionGroup> {
         // Remove outer parentheses if they exist (handle new syntax like "(user.age >= 18)")
         let trimmed_clause = clause.trim();
-        let clause_to_parse = if trimmed_clause.starts_with('(') && trimmed_clause.ends_with(')') {
+        // (only a pair that matches each other: in `(a + b) * c >= (d - e)` the first and the last
+        // parenthesis belong to different sub-expressions)
+        let clause_to_parse = if trimmed_clause.starts_with('(')
+            && trimmed_clause.ends_with(')')
+            && self.is_balanced_parentheses(&trimmed_clause[1..trimmed_clause.len() - 1])
+        {
             trimmed_clause[1..trimmed_clause.len() - 1].trim()
         } else {
             trimmed_clause
